@@ -357,9 +357,11 @@ def fn(case, ctx):
             mdl = models[name]; sp, de = handles[name]
             acc = model_accepts(vd, mdl.typ, mdl.arity)
             res = []
+            key_i = np.int64(i) if (step + i) % 3 == 0 else i        # element ids often come out of numpy arrays
+            if key_i is not i: ctx.label("numpy-index")
             for which, a in (("sparse", sp), ("dense", de)):
                 try:
-                    a[i] = realise_value(vd)
+                    a[key_i] = realise_value(vd)
                     res.append(True)
                 except Exception as e:
                     res.append(False)
